@@ -35,6 +35,9 @@ func init() {
 
 func runC02(w *World, r *Report) {
 	hrConcurrentAllowed(w, r, "R6")
+	hrNotFoundOnlyWhenAbsent(w, r, "R6")
+	hrOnErrorWireFormat(w, r, "R6")
+	hrEarlyReturnTypes(w, r, "R6")
 	hrChildStrategyKeepsParent(w, r, "R6")
 	hrParentWalk(w, r, "R6")
 	hrCacheFailureDoesNotFailTheTransaction(w, r, "R6")
